@@ -1,6 +1,6 @@
 (* Props/C10.v — time travel and history. *)
 From Coq Require Import List NArith Arith Bool.
-From SKV Require Import Base.Lex Txn.WriteSet Spec.Store Spec.Versioned Spec.Machine Lsm.CompactKey Lsm.CompactKeyOld Lsm.CompactKeySpec Lsm.CompactKey_proofs.
+From SKV Require Import Base.Lex Txn.WriteSet Spec.Store Spec.Versioned Spec.Machine Lsm.CompactKey Lsm.CompactKeyOld Lsm.CompactKeyMid Lsm.CompactKeySpec Lsm.CompactKey_proofs.
 Import ListNotations.
 
 (* a hard delete erases every earlier version for good; a replace erases them and stays *)
@@ -55,7 +55,7 @@ Proof. exact compact_key_history_deeper_any. Qed.
    newest barrier the reader sees is inside the retention window ... *)
 Theorem C10_compact_history_deeper_retention : compact_key_history_deeper_retention_stmt.
 Proof. exact compact_key_history_deeper_retention. Qed.
-(* ... and the proviso is needed: a hard delete outside the window is dropped as superseded *)
+(* ... and the proviso is needed in general: a REPLACE outside the window is dropped as superseded *)
 Theorem C10_compact_retention_barrier_lost : compact_key_retention_barrier_lost_stmt.
 Proof. exact compact_key_retention_barrier_lost. Qed.
 
@@ -75,3 +75,46 @@ Example C10_old_decision_resurrects :
   history_deeper (compact_key false true 0 0 [] vs) deep 3%N = [ {| vseq := 3; vkind := CSet; vts := 0 |} ]%N /\
   compact_key false true 0 0 [] vs = vs.
 Proof. vm_compute. repeat split; reflexivity. Qed.
+
+(* ---- finite retention: hard-delete barriers need no window proviso ------------------------ *)
+(* for ANY retention and clock: when the newest barrier a reader that can exist sees is a hard delete,
+   nothing it erased comes back over this level and everything deeper *)
+Theorem C10_compact_history_deeper_hard : compact_key_history_deeper_hard_stmt.
+Proof. exact compact_key_history_deeper_hard. Qed.
+
+(* documented limitation: a REPLACE barrier outside the window is still dropped above the bottom
+   level (required by the crate's pinned unit tests) and deeper versions come back *)
+Theorem C10_compact_retention_replace_lost : compact_key_retention_replace_lost_stmt.
+Proof. exact compact_key_retention_replace_lost. Qed.
+
+(* regression record: the decision between the two repairs (no accumulator) violates
+   C10_compact_history_deeper_hard *)
+Theorem C10_compact_mid_decision_loses_barrier : compact_key_mid_history_deeper_hard_fails_stmt.
+Proof. exact compact_key_mid_history_deeper_hard_fails. Qed.
+
+(* the witness spelled out: level [Set@3; Del@2] (timestamps 0) above a deeper [Set@1], retention 10
+   at clock 100, no snapshot, reader at 3.  Decision between the repairs: Del@2 dropped as
+   superseded, Set@1 is back; current decision: Del@2 stays.  A newer REPLACE in the same visibility
+   boundary makes the older hard delete redundant and it is dropped: [Rep@3; Del@2] -> [Rep@3] *)
+Example C10_mid_decision_resurrects :
+  let vs := [ {| vseq := 3; vkind := CSet; vts := 0 |}; {| vseq := 2; vkind := CDel; vts := 0 |} ]%N in
+  let deep := [ {| vseq := 1; vkind := CSet; vts := 0 |} ]%N in
+  history_deeper vs deep 3%N = [ {| vseq := 3; vkind := CSet; vts := 0 |} ]%N /\
+  history_deeper (compact_key_mid false true 10 100 [] vs) deep 3%N
+    = [ {| vseq := 3; vkind := CSet; vts := 0 |}; {| vseq := 1; vkind := CSet; vts := 0 |} ]%N /\
+  history_deeper (compact_key false true 10 100 [] vs) deep 3%N = [ {| vseq := 3; vkind := CSet; vts := 0 |} ]%N /\
+  compact_key false true 10 100 [] vs = vs /\
+  compact_key false true 0 0 []
+    [ {| vseq := 3; vkind := CRep; vts := 0 |}; {| vseq := 2; vkind := CDel; vts := 0 |} ]%N
+  = [ {| vseq := 3; vkind := CRep; vts := 0 |} ]%N.
+Proof. vm_compute. repeat split; reflexivity. Qed.
+
+(* the accumulator is reset at a change of visibility boundary: with a snapshot at 6 the hard delete
+   Del@3 (outside the window) is the barrier of the reader registered at 6, the newer Del@7 is
+   invisible to it — Del@3 stays.  Without the snapshot Del@7 makes it redundant *)
+Example C10_barrier_kept_across_snapshot :
+  let vs := [ {| vseq := 7; vkind := CDel; vts := 0 |}; {| vseq := 5; vkind := CSoft; vts := 0 |};
+              {| vseq := 3; vkind := CDel; vts := 0 |} ]%N in
+  compact_key false true 10 100 [6%N] vs = vs /\
+  compact_key false true 10 100 [] vs = [ {| vseq := 7; vkind := CDel; vts := 0 |} ]%N.
+Proof. vm_compute. split; reflexivity. Qed.
